@@ -68,18 +68,24 @@ Proof.
   destruct (Nat.ltb_spec k start), (Nat.leb_spec k (start - 1)), (Nat.ltb_spec k (start + len - 1)); lia.
 Qed.
 
+(* the class node starts c_deco lines above its keyword line (TypeScript decorators; 0 elsewhere): node start, keyword line and node
+   end all move with the shift *)
+Definition node_start (c : cls) : nat := c_line c - c_deco c.
 Definition shift_cls (k : nat) (c : cls) : cls :=
   {| c_name := c_name c; c_kind := c_kind c; c_line := shift_ins k (c_line c); c_col := c_col c;
-     c_len := len_shift k (c_line c) (c_len c); c_members := c_members c |}.
+     c_deco := shift_ins k (c_line c) - shift_ins k (node_start c);
+     c_len := len_shift k (node_start c) (c_len c); c_members := c_members c |}.
 
-Lemma gen_loc : py_loc_lo_sub = 1 /\ py_loc_hi_add = 0 /\ rs_loc_lo_sub = 0 /\ rs_loc_hi_add = 1 /\ ts_loc_span_plus = 1.
+Lemma gen_loc : py_loc_lo_sub = 1 /\ py_loc_hi_add = 0 /\ rs_loc_lo_sub = 0 /\ rs_loc_hi_add = 1 /\ ts_loc_mode = LocFilter 0 1 "//".
 Proof. repeat split; reflexivity. Qed.
 
 (* ---------- Python: heuristics.count_loc ---------- *)
 Theorem py_loc_insert q lines c k x : py_line_counts q x = false -> k <= List.length lines -> 1 <= c_line c -> 1 <= c_len c ->
+  c_deco c = 0 ->
   py_count_loc q (ins k x lines) (shift_cls k c) = py_count_loc q lines c.
 Proof.
-  intros Hx Hk Hs Hn. unfold py_count_loc. destruct gen_loc as (-> & -> & _). cbn [shift_cls c_line c_len].
+  intros Hx Hk Hs Hn Hd. unfold py_count_loc. destruct gen_loc as (-> & -> & _). cbn [shift_cls c_line c_len].
+  unfold node_start. rewrite Hd, Nat.sub_0_r.
   destruct (node_bounds k (c_line c) (c_len c) Hs Hn) as [B1 B2].
   rewrite !Nat.add_0_r, B1, B2. replace (c_line c + c_len c - 1) with (c_line c + c_len c - 1) by lia.
   now rewrite (count_slice_ins (py_line_counts q) x (c_line c - 1) (c_line c + c_len c - 1) k lines Hx Hk).
@@ -112,35 +118,42 @@ Lemma rs_comment_not_counted q t : rs_line_counts q {| l_kind := LComment; l_tex
 Proof. reflexivity. Qed.
 
 (* ---------- TypeScript / JavaScript: count_loc ---------- *)
-(* with the raw-span flag off the metric filters the lines of the node like the other two *)
-Theorem ts_loc_insert_flag_off q lines c k x : q_ts_loc_raw_span q = false -> is_code x = false ->
-  k <= List.length lines -> 1 <= c_line c -> 1 <= c_len c ->
+(* the rule is read from the source (Gen.SrpGen.ts_loc_mode); since fix c90fc92 it filters the lines of the node like the other
+   two, so the metric is invariant for every quirk vector.  (Reverting the fix changes ts_loc_mode and this proof fails.) *)
+Theorem ts_loc_insert q lines c k x : ts_line_counts q "//" x = false -> k <= List.length lines ->
+  1 <= node_start c -> c_deco c <= c_line c -> 1 <= c_len c ->
   ts_count_loc q (ins k x lines) (shift_cls k c) = ts_count_loc q lines c.
 Proof.
-  intros Hq Hx Hk Hs Hn. unfold ts_count_loc. rewrite Hq. cbn [shift_cls c_line c_len].
-  destruct (node_bounds k (c_line c) (c_len c) Hs Hn) as [B1 B2]. rewrite B1, B2. f_equal. now apply count_slice_ins.
+  intros Hx Hk Hs Hd Hn. unfold ts_count_loc. destruct gen_loc as (_ & _ & _ & _ & ->).
+  cbn [shift_cls c_line c_len c_deco].
+  assert (M : shift_ins k (node_start c) <= shift_ins k (c_line c)).
+  { unfold node_start, shift_ins. destruct (k <? c_line c - c_deco c) eqn:E1, (k <? c_line c) eqn:E2;
+    rewrite ?Nat.ltb_lt, ?Nat.ltb_ge in *; lia. }
+  replace (shift_ins k (c_line c) - (shift_ins k (c_line c) - shift_ins k (node_start c))) with (shift_ins k (node_start c)) by lia.
+  destruct (node_bounds k (node_start c) (c_len c) Hs Hn) as [B1 B2].
+  replace (shift_ins k (node_start c) - 1 - 0) with (shift_ins k (node_start c) - 1) by lia.
+  replace (shift_ins k (node_start c) + len_shift k (node_start c) (c_len c) - 2 + 1)
+    with (shift_ins k (node_start c) + len_shift k (node_start c) (c_len c) - 1)
+    by (unfold len_shift, shift_ins; destruct (k <? node_start c), (k <? node_start c + c_len c - 1); lia).
+  change (c_line c - c_deco c) with (node_start c).
+  replace (node_start c - 1 - 0) with (node_start c - 1) by lia.
+  replace (node_start c + c_len c - 2 + 1) with (node_start c + c_len c - 1) by lia.
+  rewrite B1, B2. f_equal. now apply count_slice_ins.
 Qed.
 
-(* as the code is: every line inserted inside a class adds one to its LOC *)
-Theorem ts_loc_insert_raw q lines c k x : q_ts_loc_raw_span q = true -> 1 <= c_line c -> 1 <= c_len c ->
-  c_line c <= k -> k < c_line c + c_len c - 1 ->
-  ts_count_loc q (ins k x lines) (shift_cls k c) = S (ts_count_loc q lines c).
-Proof.
-  intros Hq Hs Hn H1 H2. unfold ts_count_loc. rewrite Hq. destruct gen_loc as (_ & _ & _ & _ & ->).
-  cbn [shift_cls c_line c_len]. unfold len_shift, shift_ins.
-  replace (k <? c_line c) with false by (symmetry; apply Nat.ltb_ge; lia).
-  replace (k <? c_line c + c_len c - 1) with true by (symmetry; apply Nat.ltb_lt; lia). lia.
-Qed.
+Lemma ts_blank_not_counted q : ts_line_counts q "//" {| l_kind := LBlank; l_text := "" |} = false.
+Proof. reflexivity. Qed.
 
-Theorem ts_loc_insert_refuted : exists lines c k x,
-  is_code x = false /\ k <= List.length lines /\
-  ts_count_loc srp_actual (ins k x lines) (shift_cls k c) <> ts_count_loc srp_actual lines c.
-Proof.
-  exists [{| l_kind := LCode; l_text := "class A {" |}; {| l_kind := LCode; l_text := "x = 1;" |}; {| l_kind := LCode; l_text := "}" |}],
-         {| c_name := "A"; c_kind := CPlain; c_line := 1; c_col := 0; c_len := 3; c_members := [] |},
-         1, {| l_kind := LBlank; l_text := "" |}.
-  repeat split; [cbn; lia|vm_compute; discriminate].
-Qed.
+Lemma ts_comment_not_counted q t : ts_line_counts q "//" {| l_kind := LComment; l_text := ("//" ++ t)%string |} = false.
+Proof. reflexivity. Qed.
+
+(* regression (finding q_ts_loc_raw_span, fixed by c90fc92): the old witness - a blank line inside a three-line class - now keeps
+   its line count under the claimed vector *)
+Example ts_loc_old_witness_invariant :
+  let lines := [{| l_kind := LCode; l_text := "class A {" |}; {| l_kind := LCode; l_text := "x = 1;" |}; {| l_kind := LCode; l_text := "}" |}] in
+  let c := {| c_name := "A"; c_kind := CPlain; c_line := 1; c_col := 0; c_deco := 0; c_len := 3; c_members := [] |} in
+  ts_count_loc srp_actual (ins 1 {| l_kind := LBlank; l_text := "" |} lines) (shift_cls 1 c) = ts_count_loc srp_actual lines c.
+Proof. vm_compute. reflexivity. Qed.
 
 (* appended code lies outside every node *)
 Lemma slice_app {A} lo hi (l extra : list A) : hi <= List.length l -> slice lo hi (l ++ extra) = slice lo hi l.
